@@ -20,7 +20,7 @@ var rR16w = RuleRef{Name: "R16w", Doc: "durability points and validation before 
 		{Pkg: walPkg, Fn: "WAL.Save", At: "call:saveState", NeedAll: []string{"C|MustSync"}, What: "MustSync is evaluated against the previous hard state before it is overwritten"},
 		{Pkg: walPkg, Fn: "WAL.sync", At: "ret-ok", NeedAny: []string{"C|Fdatasync", "T|field:unsafeNoSync"}, What: "sync reaches Fdatasync on every successful path unless unsafeNoSync"},
 		{Pkg: walPkg, Fn: "WAL.sync", At: "call:Fdatasync", NeedAny: []string{"OK|flush", "T|cmp:encoder==nil"}, What: "the encoder is flushed before the file is synced"},
-		{Pkg: walPkg, Fn: "WAL.cut", At: "call:Rename", NeedAll: []string{"OK|sync", "OK|saveState", "OK|saveCrc"}, What: "the new segment is complete and synced before it is renamed into place"},
+		{Pkg: walPkg, Fn: "WAL.cut", At: "call:Rename", NeedAll: []string{"OK|sync", "OK|saveState", "OK|encode#4"}, What: "the new segment is complete (its leading CRC record, record type 4, and the hard state were written) and synced before it is renamed into place"},
 		{Pkg: walPkg, Fn: "WAL.cut", At: "ret-nil", NeedAll: []string{"OK|Rename", "OK|Fsync"}, What: "the directory is fsynced after the rename"},
 		{Pkg: walPkg, Fn: "WAL.cut", At: "call:Fsync", NeedAll: []string{"OK|Rename"}, What: "directory fsync comes after the rename"},
 		{Pkg: walPkg, Fn: "WAL.SaveSnapshot", At: "ret-ok", NeedAll: []string{"OK|encode", "C|sync"}, What: "a snapshot record is synced before SaveSnapshot returns"},
